@@ -523,6 +523,7 @@ def knife(rnd, far=False, extreme=False):
     for r in m.rows:
         r.name = None
     m.truth = None
+    m.far = bool(far)       # feasible (if at all) only beyond the library's infinity
     return _names(m)
 
 
